@@ -1,6 +1,6 @@
 (* C19 — discovery resolves to the nearest enclosing project; init_project is idempotent.
    This file only states theorems; proofs live in SV.C19Proofs.  The model is SV.Discover. *)
-From SV Require Import Base Json Discover CorrC19 C19Proofs.
+From SV Require Import Base Json Discover CorrC19 PathAlg C19Proofs.
 
 (* ---- the upward search -------------------------------------------------------------------
    [nearest_cfg root cwd sp r]: r is reached from sp by iterating os.path.dirname, r holds
@@ -127,3 +127,74 @@ Theorem C19_init_project_idempotent : forall root cwd path d c,
   init_project root cwd path = (Ok (abspath cwd d), root).
 Proof. exact init_project_idempotent. Qed.
 Print Assumptions C19_init_project_idempotent.
+
+(* ---- the same at the level of path COMPONENTS and physical lookups ------------------------
+   [abs_of comps] = "/c1/…/cn"; [nearest root (rev comps)] = the longest prefix of comps holding
+   .signac/config (physically, links followed).  On clean components (non-empty, slash-free, not
+   "." / "..") the string-level search of the code computes exactly that prefix. *)
+Theorem C19_nearest_components : forall root cwd rcomps r,
+  forallb cleanb rcomps = true -> nearest root rcomps = Some r ->
+  nearest_cfg root cwd (abs_of (rev rcomps)) (abs_of r).
+Proof. exact nearest_sound. Qed.
+Print Assumptions C19_nearest_components.
+
+Theorem C19_no_project_components : forall root cwd rcomps,
+  forallb cleanb rcomps = true -> nearest root rcomps = None ->
+  no_cfg_above root cwd (abs_of (rev rcomps)).
+Proof. exact nearest_none_sound. Qed.
+Print Assumptions C19_no_project_components.
+
+(* path algebra used above *)
+Theorem C19_dirname_drops_last_component : forall cs c,
+  cs <> [] -> forallb cleanb cs = true -> cleanb c = true -> dirname (abs_of (cs ++ [c])) = abs_of cs.
+Proof. exact dirname_abs_of_snoc. Qed.
+Print Assumptions C19_dirname_drops_last_component.
+
+Theorem C19_abspath_identity_on_normalised : forall cwd cs,
+  forallb cleanb cs = true -> abspath cwd (abs_of cs) = abs_of cs.
+Proof. exact abspath_abs_of. Qed.
+Print Assumptions C19_abspath_identity_on_normalised.
+
+Theorem C19_config_fn_components : forall cwd cs, forallb cleanb cs = true ->
+  cfgfn cwd (abs_of cs) = abs_of (cs ++ [s_dotsignac; s_config]).
+Proof. exact cfgfn_abs_of. Qed.
+Print Assumptions C19_config_fn_components.
+
+(* ---- model_holds: licence for "implementation agrees with the model on this query => the oracle
+   holds on this query".  Scope (partial): get_project (both search modes) and init_project on an
+   existing project whose tree did not change; outcome a project or LookupError.  FULL statement
+   (not proved): the same for get_job queries and for init_project when the missing workspace
+   directory is re-created; for those the string-level theorems above (C19_get_job_innermost,
+   C19_init_project_no_mutating_step, C19_project_open_effect) are what is proved, and the oracle
+   is evaluated on every observation of every run in any case. *)
+Theorem C19_model_holds_partial : forall base tree q,
+  pre_q base tree q = true -> agree_q base tree q = true ->
+  outcome_in_vocabulary (q_kind q) (q_res q) ->
+  (q_kind q = QInit -> q_changed q = false) ->
+  holds_q base tree q = true.
+Proof. exact model_holds_C19. Qed.
+Print Assumptions C19_model_holds_partial.
+
+(* ---- non-vacuity: a concrete tree satisfying the hypotheses -------------------------------
+   /p is a project, /p/workspace/<id>/inner is a project nested in a job directory with its own
+   job <id2>; /p/workspace/<id>/inner/workspace/<id2>/sub is queried. *)
+Definition ex_id : str := repeat 97%N 32.      (* "aaaa…a" *)
+Definition ex_id2 : str := repeat 98%N 32.     (* "bbbb…b" *)
+Definition ex_cfg : node := Dir [(s_config, File (FCfg {| cv := Some 2%Z; cproj := None; cws := None |}))].
+Definition ex_sub : str := [115; 117; 98]%N.
+Definition ex_inner : str := [105; 110; 110; 101; 114]%N.
+Definition ex_root : node :=
+  Dir [([112%N], Dir [(s_dotsignac, ex_cfg);
+        (s_workspace, Dir [(ex_id, Dir [(ex_inner, Dir [(s_dotsignac, ex_cfg);
+              (s_workspace, Dir [(ex_id2, Dir [(ex_sub, Dir [])])])])])])])].
+Definition ex_path : str := abs_of [[112%N]; s_workspace; ex_id; ex_inner; s_workspace; ex_id2; ex_sub].
+
+Example C19_example_nested :
+  get_project ex_root [47%N] ex_path true = (Ok (abs_of [[112%N]; s_workspace; ex_id; ex_inner]), ex_root) /\
+  get_job ex_root [47%N] ex_path = (Ok (abs_of [[112%N]; s_workspace; ex_id; ex_inner], ex_id2), ex_root) /\
+  get_job ex_root [47%N] (abs_of [[112%N]; s_workspace; ex_id]) = (Ok (abs_of [[112%N]], ex_id), ex_root) /\
+  get_project ex_root [47%N] (abs_of [[112%N]; s_workspace; ex_id]) false = (Err ELookupError, ex_root) /\
+  init_project ex_root [47%N] (abs_of [[112%N]]) = (Ok (abs_of [[112%N]]), ex_root) /\
+  nearest ex_root (rev [[112%N]; s_workspace; ex_id; ex_inner; s_workspace; ex_id2; ex_sub])
+    = Some [[112%N]; s_workspace; ex_id; ex_inner].
+Proof. vm_compute. repeat split; reflexivity. Qed.
